@@ -55,7 +55,7 @@ TIERS = {
                     dict(min_n=4, max_n=4, max_groups=1, max_reps=2,
                          timing=False)],
         sampled=[(3, 2000), (4, 8000), (5, 6000)],
-        abstract_cap=12000, programs=100, stub_times=[1, 2, 3, 4, 5, 7, 9],
+        abstract_cap=12000, programs=70, stub_times=[1, 2, 3, 4, 5, 7, 9],
         runmany=30, shards=14,
         enum_cfg='MCConcertinaEnum_thorough.cfg',
         enum_args=dict(min_n=1, max_n=3, min_reps=1, max_reps=2, max_groups=2,
